@@ -103,6 +103,15 @@ pub fn k7_locations(p: &Program) -> u32 {
     mask
 }
 
+/// F7c: a compare_exchange on a location that another thread writes (a failing CAS is only a
+/// load and may read any coherent value, but loom lets every RMW read the newest store only).
+pub fn cas_other_writer(p: &Program) -> bool {
+    p.ops().any(|(t, _, o)| match o {
+        Op::Cas { a, .. } => p.ops().any(|(u, _, w)| u != t && (is_rmw(w) == Some(*a) || is_store(w) == Some(*a))),
+        _ => false,
+    })
+}
+
 pub fn atomics_class(p: &Program) -> Option<String> {
     if k7b(p) {
         Some("k7b".into())
@@ -334,6 +343,7 @@ pub fn in_class(class: &str, case: &Case, labels: &[String]) -> bool {
         "k7a" => k7a(p),
         "k7b" => k7b(p),
         "k7" => k7a(p) || k7b(p),
+        "cas_other_writer" => cas_other_writer(p),
         "try_lock_contended" => try_lock_contended(p),
         "try_recv_race" => try_recv_race(p),
         "unpark_blocked_target" => unpark_blocked_target(p),
